@@ -14,6 +14,23 @@ local_new = Fn(FI, "new", impl="StaticallyKnownLocal", slot="expr", ret="res", k
 get_rule = Fn(FR, "get_rule", impl="Ruledef", slot="asm", mode="stub", ret="res", key="Ruledef::get_rule",
     requires=[C("in_range", "rule_ref.0 < self.rules@.len()")], ensures=[C("the_rule", "*res == self.rules@[rule_ref.0 as int]")])
 
+FSYM = "src/util/symbol_manager.rs"
+try_get = Fn(FSYM, "try_get_by_name", impl="<T> SymbolManager<T>", impl_header="<T> SymbolManager<T>", slot="util", mode="stub", ret="res", key="SymbolManager::try_get_by_name",
+    ensures=[C("the_declaration_the_reference_denotes", "res == self.spec_find(ctx, hierarchy_level, hierarchy@)")])
+CAPS = [("decls", "&asm::ItemDecls", "decls"), ("defs", "&asm::ItemDefs", "defs"), ("symbol_ctx", "&util::SymbolContext", "symbol_ctx")]
+FOUND = "decls.symbols.spec_find(symbol_ctx, query.hierarchy_level, query.hierarchy@)"
+query_variable = Fn(FM, "get_match_statically_known", slot="asm", ret="res", key="matcher::get_match_statically_known::query_variable", gen_name="verif_closure_query_variable", props=["C02", "C08", "C03"],
+    lift={"closure": "query_variable", "captures": CAPS, "part": "lifted", "free": True, "uncalled": True, "ret_type": "bool"},
+    requires=[C("declared_symbols_are_defined", "%s is Some ==> (%s->0).0 < defs.symbols.defs@.len() && defs.symbols.defs@[(%s->0).0 as int] is Some" % (FOUND, FOUND, FOUND), ["C03"])],
+    ensures=[
+        C("the_current_address_is_never_known_before_resolution_whatever_symbols_exist",
+          "query.hierarchy_level == 0 && query.hierarchy@.len() == 1 && (query.hierarchy@[0]@ == \"$\"@ || query.hierarchy@[0]@ == \"pc\"@) ==> !res", ["C02", "C08"]),
+        C("otherwise_the_flag_of_the_symbol_the_reference_denotes",
+          "!(query.hierarchy_level == 0 && query.hierarchy@.len() == 1 && (query.hierarchy@[0]@ == \"$\"@ || query.hierarchy@[0]@ == \"pc\"@)) ==> res == (match %s { None => false, Some(r) => (defs.symbols.defs@[r.0 as int]->0).value_statically_known })" % FOUND, ["C02"]),
+    ],
+    rewrites=[Rewrite(r'query\.hierarchy\[0\] == ("[^"]*")', r"util::verif_string_is(&query.hierarchy[0], \1)", regex=True, count=None, rule="R16", why="`String == &str` (no vstd specification) -> prelude wrapper comparing the texts")],
+)
+
 ARGS = "decls, defs, symbol_ctx"
 known = Fn(FM, "get_match_statically_known", slot="asm", ret="res", key="matcher::get_match_statically_known", props=["C02", "C08", "C03"],
     requires=[C("match_refers_to_defined_rules", "match_ok(defs, *mtch)", ["C03"])],
@@ -48,7 +65,7 @@ UNIT = Unit(
         Type(FR, "struct", "Rule", slot="asm"), Type(FR, "type", "RulePattern", slot="asm"), Type(FR, "enum", "RulePatternPart", slot="asm"),
         Type(FR, "struct", "RuleParameter", slot="asm"), Type(FR, "enum", "RuleParameterType", slot="asm", derive="Clone, Copy"),
         Type(FR, "struct", "Ruledef", slot="asm"), Type("src/asm/defs/mod.rs", "struct", "DefList", slot="asm"),
-    ] + [f for f in deflist_fns("stub", "asm") if f.name == "get"] + [provider_new, local_new, get_rule, Fn(FM, "get_match_static_size", slot="asm", mode="stub", ret="res", key="matcher::get_match_static_size", ensures=[]), known],
+    ] + [f for f in deflist_fns("stub", "asm") if f.name == "get"] + [provider_new, local_new, get_rule, Fn(FM, "get_match_static_size", slot="asm", mode="stub", ret="res", key="matcher::get_match_static_size", ensures=[]), try_get, query_variable, known],
     serves=["C02", "C08", "C03"],
     description="matcher::get_match_statically_known: when an instruction match may be frozen after the first pass",
 )
